@@ -203,7 +203,7 @@ def u1_query_construction(run):
                                     "encode": None})
     joins = [(nd, c) for nd, c in cfg.call_nodes("join")
              if isinstance(c.func, ast.Attribute) and
-             isinstance(c.func.value, ast.Name) and c.args and
+             isinstance(c.func.value, (ast.Name, ast.Constant)) and c.args and
              isinstance(c.args[0], (ast.List, ast.Tuple)) and
              len(c.args[0].elts) == 2 and
              unparse(c.args[0].elts[0]) == "location"]
@@ -223,7 +223,7 @@ def u1_query_construction(run):
               "query string is urlencode(args)",
               "the query appended to the destination is not solely "
               "urlencode(args)", fi.loc(c))
-    gname = attr_chain(c.func).rsplit(".", 1)[0]
+    gname = unparse(c.func.value)
     glue = [g for g in cfg.by_kind("stmt") if isinstance(g.ast, ast.Assign) and
             unparse(g.ast.targets[0]) == gname]
     has_query = Q("urlparse(location).query")
@@ -258,11 +258,24 @@ def u1_query_construction(run):
         if isinstance(d, ast.Dict):
             hdr += [(r, v) for k, v in zip(d.keys, d.values)
                     if isinstance(k, ast.Constant) and k.value == "headers"]
-    lname = [unparse(g.ast.targets[0]) for g in cfg.by_kind("stmt")
-             if isinstance(g.ast, ast.Assign) and g.ast.value is c]
-    run.check(len(hdr) == 1 and len(lname) == 1 and cfg.same(
-        hdr[0][1], hdr[0][0].id, "[('Location', str(%s))]" % lname[0]),
-              "U1", fi.qual + "::Location",
+    # the Location header carries str(<the joined URL>) - the join written
+    # in place or bound to a name first
+    def is_join(e, nid):
+        return cfg.itext(e, nid) == cfg.itext(c, nd.id)
+    ok = False
+    if len(hdr) == 1:
+        r0, hv = hdr[0]
+        if isinstance(hv, (ast.List, ast.Tuple)) and len(hv.elts) == 1 and \
+                isinstance(hv.elts[0], ast.Tuple) and \
+                len(hv.elts[0].elts) == 2:
+            k0, v0 = hv.elts[0].elts
+            ok = isinstance(k0, ast.Constant) and k0.value == "Location" and \
+                isinstance(v0, ast.Call) and call_name(v0) == "str" and \
+                len(v0.args) == 1 and is_join(v0.args[0], r0.id)
+        elif isinstance(hv, ast.Name):
+            ok = cfg.itext(hv, r0.id).startswith("[('Location', str(") and \
+                cfg.itext(c, nd.id) in cfg.itext(hv, r0.id)
+    run.check(ok, "U1", fi.qual + "::Location",
               "Location header is the joined URL", "headers changed", fi.loc(),
               nontrivial=False)
     # artifact / uri / urlencoded POST
